@@ -79,6 +79,13 @@ def run(run, binfo):
     for kind in ('a.0', 'a.1', 'a.5', 'a.-1', 'roles.0', 'a.\u00b2', 'a.0.b', 'a.b.0', 'a.00', '0', '0.0'):
         for av in ([], ['x'], [[]], [{'b': 'x'}], [{'b': []}], 's', None, {}, {'0': 'x'}, {'b': []}, [['x']], 0):
             cases.append(base_case(rules={'p': [[kind + ':x']]}, rule=('name', 'p'), creds={'a': av, 'roles': []}, target={}))
+    # a list in the MIDDLE of a path whose members are of every JSON type: members that are not containers are passed over
+    for kind in ('a.b', 'a.b.c', 'a.roles', 'a.b.0', 'x.a.b'):
+        for av in ([0, {'b': 'x'}], [{'b': 'x'}, 0], [None, {'b': 'x'}], [True, {'b': {'c': 'x'}}], ['s', {'b': 'x'}],
+                   [[], {'b': 'x'}], [2.5], [0, False, None, '', 's'], [{'b': [0, {'c': 'x'}]}], [{'b': 0}, {'b': 'x'}],
+                   [[0, {'b': 'x'}]], {'a': [0, {'b': 'x'}]}):
+            cases.append(base_case(rules={'p': [[kind + ':x']], 'via': 'not rule:p'}, rule=('name', 'p' if len(cases) % 2 else 'via'),
+                                   creds={'a': av, 'x': {'a': av}, 'roles': []}, target={}))
     # registered defaults with scope types whose check string carries placeholders: a scope mismatch
     # must surface as InvalidScope (or False), never as a formatting error
     for cs in ['role:%(wanted)s', 'project_id:%(project_id)s and role:%(k)s', "'x':%(y.z)s", 'role:admin', '%(odd)s:x']:
